@@ -201,3 +201,19 @@ def register(eng):
     eng.loop_specs[("json_format_validator", 2)] = ValidatorLoop("json_format_validator", False)
     eng.loop_specs[("json_attr_dict_validator", 1)] = ValidatorLoop("json_attr_dict_validator", True, via_list=True)
     eng.loop_specs[("json_attr_dict_validator", 2)] = ValidatorLoop("json_attr_dict_validator", False)
+
+
+def singleton_axioms(lit, k, v):
+    """The spec predicates on a one-item mapping literal {k: v} (one-level unfolding with the single item)."""
+    out = []
+    for pname, P in PRED.items():
+        if pname == "nodot":
+            out.append(P(lit) == z3.And(z3.Implies(is_str(k), z3.Not(str_contains(k, DOT))), P(v)))
+        else:
+            out.append(P(lit) == z3.And(is_str(k), P(v)))
+    return out
+
+
+def family_lemmas(v):
+    """json_ok(v) => strkeys(v)  (lemma, proved by induction in props/validators.py), instantiated at v."""
+    return [z3.Implies(json_ok(v), strkeys(v))]
